@@ -514,6 +514,26 @@ func init() {
 		g.wait = nil
 		return nil
 	})
+	z("WhenStuck", func(p *Path, fn *ssa.Function, a []Value) Value {
+		f := a[0]
+		p.spawn(&NativeFn{Name: "whenStuck", F: func(p *Path, _ []Value) Value {
+			g := p.sched.cur
+			idle := func() bool {
+				for _, o := range p.sched.gs {
+					if o != g && !o.done && !o.watchdog && (o.wait == nil || o.wait()) {
+						return false
+					}
+				}
+				return true
+			}
+			g.watchdog = true
+			p.block("watchdog waiting for the system to be stuck", idle)
+			// only fire if somebody is actually blocked (not simply finished)
+			p.call(f, nil, nil, 0)
+			return nil
+		}}, nil, 0)
+		return nil
+	})
 	z("NumBlocked", func(p *Path, fn *ssa.Function, a []Value) Value { return BVC(uint64(p.numBlocked()), 64) })
 	z("HeldLocks", func(p *Path, fn *ssa.Function, a []Value) Value { return BVC(uint64(p.heldLocks(p.sched.cur)), 64) })
 	z("AllLocksFree", func(p *Path, fn *ssa.Function, a []Value) Value {
@@ -1221,5 +1241,88 @@ func init() {
 			return StrFromTerms(out)
 		}
 		return strEq(lower(x), lower(y))
+	})
+}
+
+func init() {
+	// math/rand.Perm: every permutation is explored (symbolic schedule of peers)
+	permFn := func(p *Path, fn *ssa.Function, a []Value) Value {
+		n := p.concInt(a[len(a)-1].(*Term))
+		idx := make([]int, n)
+		for i := range idx {
+			idx[i] = i
+		}
+		out := make([]Value, 0, n)
+		for len(idx) > 0 {
+			k := p.ChooseN(len(idx))
+			out = append(out, BVC(uint64(idx[k]), 64))
+			idx = append(idx[:k], idx[k+1:]...)
+		}
+		return Slice{A: out}
+	}
+	reg("math/rand.Perm", permFn)
+	reg("math/rand/v2.Perm", permFn)
+}
+
+func init() {
+	reg("internal/abi.NoEscape", func(p *Path, fn *ssa.Function, a []Value) Value { return a[0] })
+	reg("strings.Join", func(p *Path, fn *ssa.Function, a []Value) Value {
+		elems := a[0].(Slice).A
+		sep := a[1].(Str)
+		res := Str{}
+		for i, e := range elems {
+			if i > 0 {
+				res = strConcat(res, sep)
+			}
+			res = strConcat(res, e.(Str))
+		}
+		return res
+	})
+	sb := "(*strings.Builder)."
+	reg(sb+"WriteString", func(p *Path, fn *ssa.Function, a []Value) Value {
+		b := p.bufOf(a[0].(*Value))
+		bs := a[1].(Str).Bytes()
+		b.buf = append(b.buf, bs...)
+		return Tuple{BVC(uint64(len(bs)), 64), Iface{}}
+	})
+	reg(sb+"Write", func(p *Path, fn *ssa.Function, a []Value) Value {
+		b := p.bufOf(a[0].(*Value))
+		bs := bytesOf(p, a[1])
+		b.buf = append(b.buf, bs...)
+		return Tuple{BVC(uint64(len(bs)), 64), Iface{}}
+	})
+	reg(sb+"WriteByte", func(p *Path, fn *ssa.Function, a []Value) Value {
+		b := p.bufOf(a[0].(*Value))
+		b.buf = append(b.buf, a[1].(*Term))
+		return Iface{}
+	})
+	reg(sb+"WriteRune", func(p *Path, fn *ssa.Function, a []Value) Value {
+		b := p.bufOf(a[0].(*Value))
+		r := rune(p.Concretize(a[1].(*Term)))
+		bs := StrC(string(r)).Bytes()
+		b.buf = append(b.buf, bs...)
+		return Tuple{BVC(uint64(len(bs)), 64), Iface{}}
+	})
+	reg(sb+"String", func(p *Path, fn *ssa.Function, a []Value) Value {
+		return StrFromTerms(append([]*Term(nil), p.bufOf(a[0].(*Value)).buf...))
+	})
+	reg(sb+"Len", func(p *Path, fn *ssa.Function, a []Value) Value {
+		return BVC(uint64(len(p.bufOf(a[0].(*Value)).buf)), 64)
+	})
+	reg(sb+"Grow", func(p *Path, fn *ssa.Function, a []Value) Value { return nil })
+	reg(sb+"Reset", func(p *Path, fn *ssa.Function, a []Value) Value { p.bufOf(a[0].(*Value)).buf = nil; return nil })
+	reg("strings.TrimPrefix", func(p *Path, fn *ssa.Function, a []Value) Value {
+		s, pre := a[0].(Str), a[1].(Str)
+		if pre.Len() <= s.Len() && p.Fork(strEq(StrFromTerms(s.Bytes()[:pre.Len()]), pre)) {
+			return StrFromTerms(s.Bytes()[pre.Len():])
+		}
+		return s
+	})
+	reg("strings.TrimSuffix", func(p *Path, fn *ssa.Function, a []Value) Value {
+		s, suf := a[0].(Str), a[1].(Str)
+		if suf.Len() <= s.Len() && p.Fork(strEq(StrFromTerms(s.Bytes()[s.Len()-suf.Len():]), suf)) {
+			return StrFromTerms(s.Bytes()[:s.Len()-suf.Len()])
+		}
+		return s
 	})
 }
